@@ -204,4 +204,5 @@ func main() {
 	genScriptSlots(repo, out)
 	genRpmFlags(repo, out)
 	genStrFns(repo, out)
+	genArchFns(repo, out)
 }
